@@ -5,7 +5,10 @@ bend count, lower bound for every non-doubling-back orthogonal path, attained in
 admissibility of the estimatedCostSpecific arithmetic.
 tie: translator (T) + exhaustive three-way sweep (compiled Avoid::bends / extracted Gen / extracted spec + brute-force BFS)
 + validation (V): raw orthogonal routes of the real router on scenes of separated rectangles, each checked by the
-extracted verified route checker and compared in cost with the extracted grid oracle (sound; optimality partial)."""
+extracted verified route checker and compared in cost with the extracted grid oracle (sound; optimal over its Hanan-grid graph).
+Direction-restricted free endpoints (ConnDirFlags): framed scenes x all 15 x 15 flag combinations x penalties 0.5 / 10 / 50 / 400, decided by
+check_path_dirs + oracle_dirs (convention: flags name the side the connector attaches to; no turn at, no move into the source, no move out
+of the target); failures explained by libavoid's own search space are the known findings restricted_endpoint_search_space / _route_doubles_back."""
 import os, json
 from vlib import common as C
 
@@ -376,6 +379,22 @@ def has_reversal(route):
     return any(u[0] == -v[0] and u[1] == -v[1] for u, v in zip(ds, ds[1:]))
 
 
+def through_own_endpoint(route, src, dst):
+    """does the route run over the position of its own source after leaving it, or over its target before the end?"""
+    def on(a, b, q):
+        return (a[0] == b[0] == q[0] and min(a[1], b[1]) <= q[1] <= max(a[1], b[1])) or (a[1] == b[1] == q[1] and min(a[0], b[0]) <= q[0] <= max(a[0], b[0]))
+    n = len(route)
+    for i in range(n - 1):
+        a, b = route[i], route[i + 1]
+        if a == b:
+            continue
+        if on(a, b, tuple(src)) and not (i == 0 and a == tuple(src) and b != tuple(src)) :
+            return True
+        if on(a, b, tuple(dst)) and not (b == tuple(dst) and all(q == tuple(dst) for q in route[i + 1:])):
+            return True
+    return False
+
+
 def judge_dirs(r):
     """direction-restricted family: None if fine, else (kind, no_input, fingerprint or None, extra dict)"""
     if 'error' in r:
@@ -388,7 +407,9 @@ def judge_dirs(r):
         return 'non_integer_route_coordinate', False, None, {}
     restricted = r['src_dirs'] != 15 or r['dst_dirs'] != 15
     if restricted and has_reversal(r['route']):
-        return 'route_doubles_back_on_itself', False, FP_BACK, {}
+        return 'route_doubles_back_on_itself', False, FP_BACK + ':reversal', {}
+    if restricted and through_own_endpoint([tuple(q) for q in r['route']], r['src'], r['dst']):
+        return 'route_runs_through_its_own_endpoint', False, FP_BACK + ':through_endpoint', {}
     if r.get('impl_status') != 'ok':
         return 'route_rejected_by_verified_checker (endpoint direction flags not honoured, or through an obstacle, or not from src to dst)', False, None, {}
     if r.get('oracle_status') != 'ok':
@@ -656,14 +677,20 @@ META = {
                 'allowed arrival directions, and the initial-point branch) is admissible.  "The search finds the minimum-cost route" is '
                 'PARTIAL: a verified route checker (axis-parallel, obstacle-avoiding, endpoints, cost) and a grid-search oracle proved '
                 'SOUND (its cost is realised by a checked path) and OPTIMAL over every walk of the Hanan-grid graph it searches (relaxation fixpoint) '
-                'are run against the real raw routes; the Hanan-grid sufficiency fact and the A* / scan-line graph are validated by cost equality only.',
+                'are run against the real raw routes, also for direction-restricted free endpoints (all 15 x 15 ConnDirFlags combinations, framed scenes); the Hanan-grid sufficiency fact and the A* / '
+                'scan-line graph are validated by cost equality only.',
         'design_ref': 'DESIGN.md 5.5'},
     'level_note': 'Trusted: Coq kernel; cpp2v.py + clang JSON AST (validated every run by the exhaustive three-way sweep compiled Avoid::bends / '
                   'extracted Gen / extracted closed form + brute-force BFS over {-2..2}^2 x 16 direction pairs x 3 base points); exact-rational model of '
                   'binary64 comparisons; extraction (ExtrOcamlBasic) and the OCaml/C++ drivers. estimatedCostSpecific is a hand model of '
                   'makepath.cpp:795-853 calling the generated functions (not translated: it reads ConnRef/VertInf). Not proved: Hanan-grid sufficiency '
-                  '(named assumption of C05_grid_oracle_optimal) and the A* search. Not covered: pin direction restrictions (libavoid treats visDirs of '
-                  'free-floating endpoints as visibility hints, not hard constraints, so no oracle for them is run); touching rectangles are outside the '
+                  '(named assumption of C05_grid_oracle_optimal; for direction-restricted endpoints the reference class IS the Hanan-grid walks: in the plane the '
+                  'infimum is not attained when an endpoint must leave away from its target) and the A* search. Direction restrictions of free endpoints (ConnDirFlags) are exercised in FRAMED scenes only '
+                  '(an endpoint that is first / last in a sweep silently gets extra visibility: fixConnectionPointVisibilityOnOutsideOfVisibilityGraph); convention of oracle_dirs / '
+                  'check_path_dirs: the first segment leaves the source in an allowed direction, the last one arrives travelling opposite to an allowed flag of the target, no turn at an '
+                  'endpoint, no move into the source or out of the target (gwalk). Calibration on HEAD: ~94% of such routes have exactly the oracle cost; ~5% are dearer and exactly optimal in the '
+                  'Python model of libavoid\'s search space (classifier sight_line_model, NOT trusted for a verdict: known finding restricted_endpoint_search_space), ~2% run over their own '
+                  'endpoint (known finding restricted_endpoint_route_doubles_back). Shape connection pins are C11\'s subject; touching rectangles are outside the '
                   'generated domain (the oracle blocks shared sides: interior of the union). A bends() value BELOW the closed form is reported as a broken '
                   'equality proof without failing input (it is still admissible); a value above it, or an assertion, is a violation with the input.',
     'technique': 'Coq proof over cpp2v-regenerated Gallina + exhaustive sweep + verified checker / sound grid oracle on real raw routes',
